@@ -641,13 +641,59 @@ int __wrap_pthread_mutex_unlock(pthread_mutex_t *m)
 	return r;
 }
 
+/*
+ * A thread (or a signal handler on top of it) that takes a spin lock it already holds spins for ever: that needs no
+ * timing to decide.  The list is pushed after the lock was taken and popped before it is released, so a handler that
+ * arrives in between can only make the monitor miss, never alarm.
+ */
+#define MAXSPIN 8
+static __thread pthread_spinlock_t *volatile spin_held[MAXSPIN];
+static __thread volatile int spin_n;
+
 int __wrap_pthread_spin_lock(pthread_spinlock_t *l)
 {
-	return __real_pthread_spin_lock(l);
+	int r, i, n = spin_n;
+
+	for (i = 0; i < n && i < MAXSPIN; i++) {
+		if (spin_held[i] == l && virtual_on && !in_child) {
+			char desc[400];
+			Dl_info di;
+			void *ra = __builtin_return_address(0);
+			const char *mod = "?";
+			unsigned long off = 1;
+			memset(&di, 0, sizeof(di));
+			if (dladdr(ra, &di) && di.dli_fbase != NULL) {
+				mod = di.dli_fname ? di.dli_fname : "?";
+				off = (unsigned long)((char *)ra - (char *)di.dli_fbase);
+			}
+			snprintf(desc, sizeof(desc), "ra=%s+0x%lx :: pthread_spin_lock(%p) by a thread that already holds this spin lock (%d held): it spins for ever",
+				 mod, off - 1, (void *)l, n);
+			hk_deadlock("spin-relock", desc);
+		}
+	}
+	r = __real_pthread_spin_lock(l);
+	if (r == 0 && spin_n < MAXSPIN) {
+		/* a handler that nests between these stores uses (and gives back) the same slot: the last store repairs it */
+		n = spin_n;
+		spin_held[n] = l;
+		spin_n = n + 1;
+		spin_held[n] = l;
+	}
+	return r;
 }
 
 int __wrap_pthread_spin_unlock(pthread_spinlock_t *l)
 {
+	int i, n = spin_n;
+
+	for (i = n - 1; i >= 0; i--) {
+		if (i < MAXSPIN && spin_held[i] == l) {
+			for (; i + 1 < n && i + 1 < MAXSPIN; i++)
+				spin_held[i] = spin_held[i + 1];
+			spin_n = n - 1;
+			break;
+		}
+	}
 	return __real_pthread_spin_unlock(l);
 }
 
